@@ -307,6 +307,77 @@ pub fn check_cond(e: &E) -> Check {
     verdict("delete", (1..=6).map(|k| !left.contains(&k)).collect())
 }
 
+/// A condition over columns of both sides (`P.pN`, `T.c`) as ON clause of an
+/// inner and of a left join of the pad table with T.
+pub fn check_cross(e: &E) -> Check {
+    let pad_value = |name: &str| -> V {
+        let i: i32 = name.trim_start_matches("P.p").parse().unwrap_or(0);
+        if i == 0 {
+            V::Int(1)
+        } else if i % 3 == 0 {
+            V::Null
+        } else {
+            V::Int(i)
+        }
+    };
+    let want: Vec<Option<bool>> = cond_rows()
+        .iter()
+        .map(|r| {
+            let lookup = |c: &str| -> V {
+                if c.starts_with("P.") {
+                    return pad_value(c);
+                }
+                let i = COND_COLS.iter().position(|x| *x == c.trim_start_matches("T.")).expect("known column");
+                r[i].clone()
+            };
+            let t: Vec<bool> = eval_ref(e, &lookup).iter().map(|v| v.truthy()).collect();
+            if t.iter().all(|x| *x) {
+                Some(true)
+            } else if t.iter().all(|x| !*x) {
+                Some(false)
+            } else {
+                None
+            }
+        })
+        .collect();
+    let mut pkg = cond_pkg();
+    for left in [false, true] {
+        let what = if left { "left-join-on" } else { "inner-join-on" };
+        let sel = if left { Select::table("P").left_join(Select::table("T"), build(e)) } else { Select::table("P").inner_join(Select::table("T"), build(e)) };
+        let keys: Vec<Option<i32>> = crate::engine::catch(|| pkg.select_rows(sel).map(|rows| rows.map(|r| r[31].as_int()).collect::<Vec<Option<i32>>>()))
+            .map_err(|(loc, msg)| Fail::new(format!("{P} panic at={loc}"), format!("{what} {} panicked: {msg}", e.show())))?
+            .map_err(|err| Fail::new(format!("{P} cond-error call={what}"), format!("{what} {} failed: {err}", e.show())))?;
+        for (i, w) in want.iter().enumerate() {
+            let matched = keys.contains(&Some(i as i32 + 1));
+            if let Some(w) = w {
+                if *w != matched {
+                    return Err(Fail::new(
+                        format!("{P} cond-wrong call={what} op={}", root_name(e)),
+                        format!("P {what} T ON {}: the pair with T row k={} {} but the reference says it {}", e.show(), i + 1, if matched { "is joined" } else { "is not joined" }, if *w { "matches" } else { "does not match" }),
+                    ));
+                }
+            }
+        }
+        if left && want.iter().all(|w| *w == Some(false)) && keys != vec![None] {
+            return Err(Fail::new(format!("{P} cond-wrong call={what} op={}", root_name(e)), format!("P left join T ON {}: no pair matches, so exactly one null-padded row is due; got T keys {keys:?}", e.show())));
+        }
+    }
+    Ok(())
+}
+
+fn cross_conditions() -> Vec<E> {
+    let mut out = Vec::new();
+    for p in ["P.p0", "P.p1", "P.p2", "P.p3", "P.p6"] {
+        for c in ["T.k", "T.a", "T.b", "T.s"] {
+            for op in [Bin::Eq, Bin::Ne, Bin::Lt, Bin::Le, Bin::Gt, Bin::Ge, Bin::And, Bin::Or] {
+                out.push(E::bin(op, E::Col(p.to_string()), E::Col(c.to_string())));
+                out.push(E::bin(op, E::Col(c.to_string()), E::Col(p.to_string())));
+            }
+        }
+    }
+    out
+}
+
 // ------------------------------------------------------------------------- //
 // Generators.
 
@@ -474,6 +545,16 @@ pub fn run(ctx: &Ctx) -> Report {
     }, &mut st);
     rep.push(v);
 
+    // 5. conditions over columns of both sides of a join (nulls on both sides)
+    let cross = cross_conditions();
+    let v = par_enumerate(ctx, "cross", &cross, |e, st| {
+        st.eval();
+        st.class("cross-join-condition");
+        st.nontrivial(&("cross", e));
+        check_cross(e)
+    }, &mut st);
+    rep.push(v);
+
     st.exhaustive = Some(true);
     rep.extra.insert("exhaustive_over".into(), json!("all trees of depth <= 1 over 18 operators x 24 leaves; depth-2 trees with one leaf side over 10 leaves"));
     rep.stats = st;
@@ -486,6 +567,7 @@ pub fn replay(_ctx: &Ctx, doc: &J) -> Check {
     match kind {
         "tree" => check_tree(&e),
         "cond" => check_cond(&e),
+        "cross" => check_cross(&e),
         _ => Err(Fail::new(format!("{P} bad-replay"), format!("unknown case kind {kind:?}"))),
     }
 }
